@@ -20,9 +20,9 @@ ASSUMPTIONS = [
     "reference matcher + hand-written operand table are the trusted base",
     "listings <= 12 instructions; windows <= 5 instructions",
 ]
-LEVELS = ["inst", "inst", "operand", "operand", "deref-or", "or-prefix", "anyorder-dup"]
+LEVELS = ["inst", "inst", "operand", "operand", "deref-or", "or-prefix", "anyorder-dup", "anyorder-varlen", "operand-deref-mix"]
 MUTATORS = ["none", "none", "none", "insert-copy", "insert-new", "delete", "replace-copy", "swap", "op-permute", "op-replace"]
-FLOORS = {"level=inst": 0.15, "level=operand": 0.15, "level=deref-or": 0.08, "level=or-prefix": 0.08, "level=anyorder-dup": 0.08, "expect=found": 0.25, "near-miss": 0.25, "nested": 0.2}
+FLOORS = {"level=inst": 0.12, "level=operand": 0.12, "level=deref-or": 0.08, "level=or-prefix": 0.06, "level=anyorder-dup": 0.06, "level=anyorder-varlen": 0.06, "level=operand-deref-mix": 0.06, "expect=found": 0.25, "near-miss": 0.25, "nested": 0.2}
 
 
 def budget(tier):
@@ -98,6 +98,65 @@ def cases(draw, max_depth=2):
         pattern = [{"$or": alts}] + descs[cut:]
         if draw(st.booleans()) and len(pattern) > 1:
             pattern = [{draw(st.sampled_from(["$and", "$and_any_order"])): pattern}]
+    elif level == "anyorder-varlen":
+        # an any-order group with a child that can match runs of different lengths, followed by more pattern
+        wlen = draw(st.integers(3, min(5, n))) if n >= 3 else n
+        i = draw(st.integers(0, n - wlen))
+        j = i + wlen
+        descs = [describe_inst(draw, NV[k], full) for k in range(i, j)]
+        if wlen >= 3:
+            glen = draw(st.integers(2, wlen - 1))          # instructions consumed by the group
+            first = draw(st.integers(1, glen - 1))          # ... of which the fixed children take `first`
+            var = descs[first:glen]
+            sh = draw(st.integers(1, len(var)))
+            short = var[0] if sh == 1 and draw(st.booleans()) else {"$and": var[:sh]}
+            long_ = {"$and": var} if len(var) > 1 else var[0]
+            # the engine must be able to come back and take the longer/shorter alternative
+            longer_than_fits = {"$and": var + descs[glen:glen + 1]} if glen < wlen else long_
+            alts = draw(st.permutations([short, long_, longer_than_fits][: draw(st.integers(2, 3))]))
+            kids = descs[:first] + [{"$or": list(alts)}]
+            pattern = [{"$and_any_order": list(draw(st.permutations(kids)))}] + descs[glen:]
+        else:
+            pattern = descs
+    elif level == "operand-deref-mix":
+        # a $deref operand and an operand-level operator in the same instruction
+        cands = [(k, q) for k in range(n) for q, o in enumerate(NV[k][2]) if parse_norm_mem(o) and len(NV[k][2]) >= 2]
+        if not cands:
+            L.insert(0, ["0", "mov", ["0x10(%rbx,%rax,4)", "%rcx", "%rdx"], ["[%rbx+%rax*4+0x10]", "%rcx", "%rdx"]])
+            NV = norm_view(L)
+            n = len(L)
+            cands = [(0, 0)]
+        k, q = draw(st.sampled_from(cands))
+        i, j = k, k + 1
+        ops = NV[k][2]
+        comp = parse_norm_mem(ops[q])
+        keymap = {"a": "main_reg", "b": "register_multiplier", "c": "constant_multiplier", "k": "constant_offset"}
+        deref = {"$deref": {keymap[ck]: v for ck, v in comp.items()}}
+        from vlib.gen_pattern import describe_operand as _dop
+
+        pats = []
+        ok = True
+        for z, o in enumerate(ops):
+            if z == q:
+                pats.append(deref)
+                continue
+            d = _dop(draw, o, full[1])
+            if d is None:
+                ok = False
+                break
+            wrap = draw(st.sampled_from(["plain", "$or", "$and", "$and_any_order"]))
+            if wrap == "$or":
+                d = {"$or": [d, decoy_operand(draw)] if draw(st.booleans()) else [decoy_operand(draw), d]}
+            elif wrap in ("$and", "$and_any_order"):
+                d = {wrap: [d]}
+            pats.append(d)
+            if draw(st.integers(0, 3)) == 0:
+                break
+        assume(ok)
+        name = NV[k][1] if full[0] else substr(draw, NV[k][1])
+        if draw(st.integers(0, 3)) == 0:
+            pats = [{"$or": [deref, "zzz"]}] + pats[1:] if q == 0 else pats
+        pattern = [{name: pats}]
     elif level == "anyorder-dup":
         # $and_any_order with children that are equal (each child must still be used exactly once)
         wlen = draw(st.integers(2, min(4, n)))
